@@ -313,6 +313,16 @@ def gen():
     heads = bool(waits) and all(re.search(r"while\s+(self\.)?handler\.is_running\(\)\s*\{|while\s+cache_running\.load\(", nlines[i - 1]) for i in waits)
     defB("NODE_WAITS_BOUNDED_BY_SAMPLING_TIMEOUT", bounded, "every process_poll_event / signal receive of node.rs waits at most SAMPLING_TIMEOUT")
     defB("NODE_WAITS_AT_LOOP_HEADS_THAT_READ_THE_FLAG", heads, "each such wait is the first action of a `while is_running()` / `while cache_running` loop")
+    # the start-up cache (C15): an unbounded FIFO — one push_back (cache thread), pop_front only in the
+    # two replay loops, created empty with VecDeque::new(), nothing else touches it; enqueue() forwards
+    # every event through the plain send() of one queue
+    cache_calls = re.findall(r"\bcache\s*\.\s*(\w+)\s*\(", "\n".join(nlines))
+    cache_ok = sorted(c for c in cache_calls if c not in ("len", "is_empty")) == ["pop_front", "pop_front", "push_back"] and \
+        bool(re.search(r"let mut cache = VecDeque::new\(\);", node_code)) and "with_capacity" not in node_code
+    defB("NODE_CACHE_IS_UNBOUNDED_FIFO", cache_ok, "node.rs cache: VecDeque::new(), one push_back, pop_front in the two replay loops only")
+    enq = " ".join(fn_body(node_code, r"pub fn enqueue\(self\)", "node.rs::enqueue").split())
+    defB("NODE_ENQUEUE_FORWARDS_WITH_PLAIN_SEND", "self.for_each_async(move |node_event| sender.send(node_event.into()))" in enq and "send_with_priority" not in enq and "send_with_timer" not in enq,
+         "enqueue() = for_each_async(|e| sender.send(e.into()))")
     stop_body = fn_body(node_code, r"pub fn stop\(&self\)\s*\{", "node.rs::stop")
     defB("NODE_STOP_CLEARS_RUNNING", bool(re.search(r"running\.store\(\s*false", stop_body)), "NodeHandler::stop stores false into the running flag")
     emit("")
